@@ -5,6 +5,7 @@ import io
 
 from vz import core
 from vz.harness.dt import Wrapped
+from vz.harness.dt import Wrapped2
 
 URL = "file:///v/main.conf"
 SURL = "file:///v/schema.xml"
@@ -25,6 +26,8 @@ def scalar(v):
 
 def tree(v):
     """Canonical value tree of anything found in a loaded configuration."""
+    if isinstance(v, Wrapped2):
+        return ("W2", tree(v.inner))
     if isinstance(v, Wrapped):
         return ("W", tree(v.inner))
     if hasattr(v, "getSectionAttributes"):
